@@ -93,6 +93,10 @@ var diagnoses = []struct {
 	class  string
 }{
 	{"html", regexp.MustCompile(`non-string type \S+ as a key`), "const_map_non_string_key", "const_map_non_string_keys"},
+	// an enum value written where the Go type is a typedef of the enum (constant
+	// containers, defaults): the typedef_of_enum defect whichever pool the
+	// program belongs to (method_returns_typedef_enum programs carry it too)
+	{"go", regexp.MustCompile(`cannot use \S+ \(constant -?\d+ of type \S+\) as \S+ value in (?:map|struct|array or slice) literal`), "typedef_of_enum", "typedef_of_enum"},
 }
 
 var (
